@@ -5,7 +5,7 @@ tied to the real queue by harness/e0/fifo.cpp (REAL threads, no baton) and Drive
 
 Stand-alone: python3 checks/C17F.py [--tier quick|thorough] [--replay file]; also called by checks/C17.py.
 Reports under property C17 (replays in replays/C17/fifo-*), evidence in evidence/C17F.json."""
-import os, sys, time, json, re, glob
+import os, sys, time, json, re, glob, subprocess
 sys.path.insert(0, os.path.join(os.path.dirname(os.path.abspath(__file__)), '..', 'tools'))
 from vlib import *
 
@@ -205,6 +205,31 @@ def main():
                               'diverging_cases': len(ties), 'searched_cases': len(cases) + extra_run})
             violations.append(f'VIOLATION property={PROP} replay={p} no-failing-input-found')
 
+    # 3b. monitor-only tier: producer-thread churn on the real back-end (threads that produced exit, new threads produce
+    # concurrently while older producers are still alive); verdict from the drained values only
+    churn_info = 'not run'
+    if not replay:
+        ok_c, cbin, clog = compile_harness('e0_fifo_churn', 'e0/fifo_churn.cpp', 'hooks')
+        if not ok_c:
+            p = write_replay(PROP, f'fifo-churn-build-{base_seed}.txt', clog)
+            violations.append(f'VIOLATION property={PROP} replay={p} no-failing-input-found')
+        else:
+            runs_c = [(24, 16, 4000), (16, 8, 20000), (28, 24, 1500)] * (6 if tr == 'thorough' else 2)
+            outs = []
+            for a in runs_c:
+                try:
+                    r = subprocess.run([cbin] + [str(x) for x in a], capture_output=True, text=True, timeout=600)
+                    outs.append((a, r.stdout.strip().split('\n')[-1] if r.stdout.strip() else f'no output rc={r.returncode}'))
+                except subprocess.TimeoutExpired:
+                    outs.append((a, 'no verdict (wall-clock limit of the check)'))
+            bad_c = [(a, o) for a, o in outs if o.startswith('churn FAIL') or o.startswith('no output')]
+            churn_info = f"{len(outs)} runs, {len(bad_c)} failing; last: {outs[-1][1]}"
+            if bad_c:
+                p = write_replay(PROP, f'fifo-churn-{base_seed}.json', {'property': PROP, 'kind': 'monitor', 'part': 'FIFO churn',
+                                 'what': 'producer-thread churn on lockfree_fifo_backend: ' + bad_c[0][1], 'argv': list(bad_c[0][0]),
+                                 'all_failing': [o for _, o in bad_c], 'rerun_cmd': f'{cbin} ' + ' '.join(str(x) for x in bad_c[0][0])})
+                violations.append(f'VIOLATION property={PROP} replay={p}')
+
     # 4. evidence ----------------------------------------------------------------------------
     dist = {'ops': 0, 'pushed': 0, 'failedpops': 0, 'overlapped': 0, 'drained': 0}
     nontriv = 0
@@ -224,7 +249,7 @@ def main():
         'samples': cases[len(corpus):len(corpus) + 2] or cases[:2],
         'traces_validated_against_impl': kinds['pass'],
         'disagreements_checked': kinds['tie'],
-        'explanation': f"theorems: {[t[0] for t in audit['theorems']]}; correspondence: {kinds}; modes {modes}; totals {dist}; corpus cases {len(corpus)}; extra search cases {extra_run}",
+        'explanation': f"theorems: {[t[0] for t in audit['theorems']]}; correspondence: {kinds}; modes {modes}; totals {dist}; corpus cases {len(corpus)}; extra search cases {extra_run}; churn tier (monitor only): {churn_info}",
     }
     write_evidence(SUB, tr, base_seed, cov, time.time() - t0, len(violations),
                    assumptions=['moodycamel::ConcurrentQueue satisfies QSpec (tested, not proved)',
